@@ -397,6 +397,41 @@ func fileScenarios(r *h.Run) {
 	}
 }
 
+// shortFs is a backend whose files legally return SHORT reads (fewer bytes than asked for, nil error) before the end of
+// the file, as network / FUSE / procfs / io/fs-adapted backends do; a short read is not the end of the data.
+type shortFs struct {
+	afero.Fs
+	max int
+}
+
+type shortFile struct {
+	afero.File
+	max int
+}
+
+func (f *shortFile) Read(p []byte) (int, error) {
+	if len(p) > f.max {
+		p = p[:f.max]
+	}
+	return f.File.Read(p)
+}
+
+func (s *shortFs) Open(name string) (afero.File, error) {
+	f, err := s.Fs.Open(name)
+	if err != nil {
+		return nil, err
+	}
+	return &shortFile{File: f, max: s.max}, nil
+}
+
+func (s *shortFs) OpenFile(name string, flag int, perm os.FileMode) (afero.File, error) {
+	f, err := s.Fs.OpenFile(name, flag, perm)
+	if err != nil {
+		return nil, err
+	}
+	return &shortFile{File: f, max: s.max}, nil
+}
+
 // fileHistoryScenarios: the same IFileHash object over a history of files — a path whose content is replaced by
 // different bytes of the same size with its modification time restored (cp -p, unzip, Chtimes) must hash to the NEW
 // bytes ("hashing a file returns the value of hashing its bytes"); and a calculation that fails after the file was
@@ -423,6 +458,14 @@ func fileHistoryScenarios(r *h.Run) {
 			sh := shim.New(afero.NewMemMapFs(), hk)
 			return filesystem.NewVirtualFileSystem(sh, filesystem.InMemoryFS, filesystem.IdentityPathConverterFunc), sh
 		}, "/h"},
+		{"mem-short-reads", func(hk shim.Hook) (filesystem.FS, *shim.Fs) {
+			sh := shim.New(&shortFs{Fs: afero.NewMemMapFs(), max: 1000}, hk)
+			return filesystem.NewVirtualFileSystem(sh, filesystem.InMemoryFS, filesystem.IdentityPathConverterFunc), sh
+		}, "/h"},
+		{"os-short-reads", func(hk shim.Hook) (filesystem.FS, *shim.Fs) {
+			sh := shim.New(&shortFs{Fs: afero.NewOsFs(), max: 333}, hk)
+			return filesystem.NewVirtualFileSystem(sh, filesystem.StandardFS, filesystem.IdentityPathConverterFunc), sh
+		}, tmp},
 	}
 	for _, b := range backends {
 		for _, algo := range algos {
